@@ -13,8 +13,10 @@ import traceback
 from . import tlcrun
 
 VERIF = tlcrun.VERIF
-EVIDENCE_DIR = os.path.join(VERIF, "evidence")
-REPLAY_DIR = os.path.join(VERIF, "replays")
+# tools/try_mutants.py redirects both (VERIF_OUT_DIR) so that trying a seeded change never rewrites the evidence of the real tree
+_OUT = os.environ.get("VERIF_OUT_DIR") or VERIF
+EVIDENCE_DIR = os.path.join(_OUT, "evidence")
+REPLAY_DIR = os.path.join(_OUT, "replays")
 FINDINGS_FILE = os.path.join(VERIF, "known_findings.json")
 
 
